@@ -451,13 +451,15 @@ CATCHSTMT = 'p0 = this_player (); e = catch (%s); VL ("catch " + e + (e && this_
 class C05(Prop):
     id = "C05"
     title = "after any LPC error the machine state is as before the failed call"
-    lean_modules = ["NV.C05.Exec", "NV.C05.Guards", "NV.C05.Tie", "NV.C05.Props", "NV.C05.Witness"]
+    lean_modules = ["NV.C05.Exec", "NV.C05.Guards", "NV.C05.Tie", "NV.C05.Props", "NV.C05.Backend", "NV.C05.Witness"]
     theorems = ["NV.C05.tie_save_context", "NV.C05.tie_safe_recovery_point", "NV.C05.tie_restore_offset",
                 "NV.C05.tie_depth_tests", "NV.C05.tie_statement_shapes", "NV.C05.tie_frame_codes",
                 "NV.C05.tie_context_fields_saved", "NV.C05.tie_every_field_saved_is_restored", "NV.C05.tie_context_globals",
                 "NV.C05.tie_frame_registers", "NV.C05.tie_frame_saved_is_restored", "NV.C05.tie_all_globals_classified",
                 "NV.C05.tie_classes_match_source", "NV.C05.tie_command_giver_stack", "NV.C05.tie_callback_handlers",
-                "NV.C05.tie_backend_shapes", "NV.C05.hbOffStep_same", "NV.C05.verbFinish_good", "NV.C05.hbFinish_good",
+                "NV.C05.tie_backend_shapes", "NV.C05.driver_restores", "NV.C05.model_satisfies_spec_driver",
+                "NV.C05.backend_cycle_restores", "NV.C05.model_satisfies_spec_backend", "NV.C05.restoreContext_verb",
+                "NV.C05.saveContext_verb", "NV.C05.judgeObs_nil_of_core", "NV.C05.hbOffStep_same", "NV.C05.verbFinish_good", "NV.C05.hbFinish_good",
                 "NV.C05.safeFpFinish_total", "NV.C05.safeApply_all_arities", "NV.C05.call_all_arities", "NV.C05.safeFinish_total",
                 "NV.C05.saveContext_refuses_iff", "NV.C05.catch_refused", "NV.C05.safeApply_refused",
                 "NV.C05.context_chain_restored_any", "NV.C05.model_satisfies_spec", "NV.C05.exec_keeps_extension", "NV.C05.top_restores", "NV.C05.catch_yields_message_exec",
@@ -476,7 +478,8 @@ class C05(Prop):
                         "NV.C05.throw_does_not_reset_guards", "NV.C05.error_resets_guards_example",
                         "NV.C05.caught_throw_in_load_restores_guards", "NV.C05.catch_in_create_keeps_depth",
                         "NV.C05.caught_throw_in_dhook_restores_guards", "NV.C05.catch_at_limit_keeps_chain",
-                        "NV.C05.safe_apply_at_limit_keeps_chain"]
+                        "NV.C05.safe_apply_at_limit_keeps_chain", "NV.C05.heart_beat_error_switches_it_off",
+                        "NV.C05.safe_apply_error_in_heart_beat_switches_it_off"]
     consts = [("frameFunction", "FRAME_FUNCTION"), ("frameFunp", "FRAME_FUNP"), ("frameCatch", "FRAME_CATCH"),
               ("frameFake", "FRAME_FAKE"), ("frameMask", "FRAME_MASK"),
               ("esStackFull", "ES_STACK_FULL"), ("esMaxEvalCost", "ES_MAX_EVAL_COST"),
@@ -889,8 +892,9 @@ class C05(Prop):
     # ---- oracle self-test: the string judge must reject hand-made bad traces (one per clause) ----
     def extra_checks(self, ctx, tier, rng):
         snap = "sp=-1 csp=-1 cg=u1 co=0 po=0 prog=0 ct=0 fp=-1 pc=null fio=0 vio=0 ctx=0 ld=0 rd=0 cgs=0 qv=0"
-        probe = "caught *probe-err ; probe tp=u1 po=0 d=0 l=0 a=3,4 e=*probe-err  co=42 side in=0 hb=1"
+        probe = "caught *probe-err ; probe tp=u1 po=0 d=0 l=0 a=3,4 e=*probe-err  co=42 side in=0 hb=0"
         head = ["base " + snap, "probe0 " + probe]
+        hb1 = probe.replace("hb=0", "hb=1")     # a heart-beat case: the heart beat of t is on before every evaluation
 
         def out(segs, after=snap, pr=probe):
             return "outcome %s ; after=%s ; probe=%s" % (" ; ".join(segs), after, pr)
@@ -911,8 +915,9 @@ class C05(Prop):
             ("half-install", [out(["caught nf", "catch nf", "done 1"], pr=probe.replace("in=0", "in=1"))], "half-install"),
             ("catch-value", [out(["caught *boom1", "catch *other", "done 1"])], "catch-value"),
             ("cg-changed", [out(["caught *boom1", "catch *boom1 cg-changed", "done 1"])], "command_giver not restored by catch"),
-            ("hb-off-unreported", [out(["caught *boom1", "catch *boom1", "done be"], pr=probe.replace("hb=1", "hb=0")).replace("outcome ", "free ", 1)], "heart-beat"),
-            ("hb-off-fault-caught", [out(["caught *verif injected fault", "catch *verif injected fault", "done be"], pr=probe.replace("hb=1", "hb=0"))], "heart-beat"),
+            ("hb-off-unreported", ["probe0 " + hb1, out(["caught *boom1", "catch *boom1", "done be"]).replace("outcome ", "free ", 1)], "heart-beat"),
+            ("hb-off-fault-caught", ["probe0 " + hb1, out(["caught *verif injected fault", "catch *verif injected fault", "done be"])], "heart-beat"),
+            ("hb-stays-on", ["probe0 " + hb1, out(["fault-top", "loop " + snap], pr=hb1)], "still on after"),
             ("loop-cg", [out(["err *x", "fault-top", "loop " + snap.replace("cg=u1", "cg=t")])], "restore fault-loop cg"),
             ("loop-csp", [out(["err *x", "fault-top", "loop " + snap.replace("csp=-1", "csp=0")])], "restore fault-loop csp"),
             ("crash-line", ["crash signal 11"], "crash"),
@@ -922,7 +927,7 @@ class C05(Prop):
                ("ok-setcg", [out(["say set-cg", "done 1"], snap.replace("cg=u1", "cg=t"))]),
                ("ok-install", [out(["say did-input_to", "done 1"], pr=probe.replace("in=0", "in=1"))]),
                ("ok-throw", [out(["catch t7", "done 1"])]),
-               ("ok-hb-off", [out(["err *boom1", "fault-top", "loop " + snap], pr=probe.replace("hb=1", "hb=0"))]),
+               ("ok-hb-off", ["probe0 " + hb1, out(["err *boom1", "fault-top", "loop " + snap])]),
                ("ok-loop", [out(["done be", "loop " + snap])])]
         cases, want = [], {}
         for name, lines, expect in neg:
